@@ -15,9 +15,17 @@ COMMON_TRUST = [
 W_Q = ["w0", "w1", "w8", "w60", "w64", "w65", "w128", "w192"]
 W_T = W_Q + ["w250", "w256"]
 
+HOOK_COMMITS = []
+NOT_APPLICABLE = {}
+
 PROPS = {
     "C01": dict(
         level="proof",
+        level_text="Verus discharges value/flag/canonicity contracts of overflowing_add/sub/neg and all checked/saturating/wrapping wrappers for every BITS and LIMBS "
+                   "on the functions re-extracted from /repo each run; Kani proves the same contract for every entry point (methods, all operator shapes, Sum) per width",
+        level_note="assumed: u64::overflowing_add/sub specifications (cross-checked full-domain by Kani), the extraction normalisations, the tools; "
+                   "Sum/iterator fold only bounded (<= 3 elements); operator impls are checked per width by Kani, not by Verus",
+        technique="deductive contracts (Verus, all widths) + Kani per-width contract harnesses with replayed counterexamples",
         units=["core", "add"],
         kani=dict(
             features=None,
